@@ -130,7 +130,8 @@ contract(MS + 'ModelState.empty_model', props=['C13', 'C09'],
          ensures=["fresh(result)", "same(result.arguments, user_args)", "same(result.stacked_training_data, stacked_training_data)",
                   "isnone(result._point_labels)", "fresh(result.clusters)", "len(result.clusters) == user_args.num_clusters",
                   "distinct_clusters(result)",
-                  "forall(0, len(result.clusters), lambda k: fresh(result.clusters[k]) and len(result.clusters[k]._member_points) == 0)"])
+                  "forall(0, len(result.clusters), lambda k: fresh(result.clusters[k]) and len(result.clusters[k]._member_points) == 0)",
+                  ("def:typestate", "result._phase == 0")])
 
 def _dd(n):
     L = "self._point_labels"
@@ -223,3 +224,8 @@ contract(AR + 'UserArguments.shallow_copy#arrays', props=['C13'], params=dict(se
          ghost={'schema': {'UserArguments.sparsity_weight': 'arr2[real]', 'UserArguments.label_switching_cost': 'arr1[real]'}},
          ensures=["fresh(result)", "same(result.sparsity_weight, self.sparsity_weight)",
                   "same(result.label_switching_cost, self.label_switching_cost)", "unchanged(self)"])
+
+# transfer lemma (pure logic over list contents): a list with the same contents as a correct member list is one too
+MEMBERS_TRANSFER = ("forall(lambda l_a, l_b, k: implies(not isnone(l_a) and not isnone(l_b) and eqcontent(l_a, l_b) and "
+                    "members_ok(l_b, {labels}, k), members_ok(l_a, {labels}, k)), pat=(len(l_a), len(l_b), cnt({labels}, k, len({labels}))))")
+SQUARE_UNIQUE = "forall(lambda a, b: implies(a >= 0 and b >= 0 and a*(a + 1) == b*(b + 1), a == b))"
